@@ -7,6 +7,7 @@ import Driver.Replay
 import Driver.Net
 import Driver.Conf
 import Driver.CCache
+import Driver.Asn1
 
 open Driver
 
@@ -24,6 +25,7 @@ def dispatch (line : String) : String :=
       else if op.startsWith "net." then Net.handle op args
       else if op.startsWith "conf." then Conf.handle op args
       else if op.startsWith "cc." then CCache.handle op args
+      else if op.startsWith "asn1." then Asn1.handle op args
       else none
     match r with
     | some s => s
